@@ -316,6 +316,20 @@ func round6(w *World, r *Report, prop string) {
 	case "C11":
 		r.Rule("R11.13", "a verdict does not depend on what was compiled before: the map-, slice- and struct-valued fields of compile.Compiler and their writers are the reviewed ones (same analysis as R12.10) — a memo keyed by a name that is not unique (two groupings called g) makes the outcome depend on the order in which modules and scopes are visited", 8)
 		r.guard("R11.13", func() { c12CompilerFields(w, r, "R11.13") })
+	case "C16":
+		r.Rule("R16.15", "the value space of a union is the union of the member types the compiler hands over: NewUnion stores its member list as given (nil replaced by an empty list) — no member is dropped on the way (inline members of one built-in type all have the same name)", 1)
+		r.guard("R16.15", func() {
+			r6ListStoredAsGiven(w, r, "R16.15", "NewUnion", "Type", "union", "typs", "typs: typs", "a member type can be missing from the union, and a value only that member accepts is rejected")
+		})
+		r.Rule("R16.16", "decimal64 value spaces: for every fraction-digits value 1..18 the bounds table holds -2^63/10^fd and (2^63-1)/10^fd (as the nearest doubles)", 18)
+		r.guard("R16.16", func() { r6FdTable(w, r, "R16.16") })
+		r.Rule("R16.17", "a value lies in a union iff some member type holds it: union.Validate asks the member types in turn and leaves the scan early only at one that accepts — whatever kind of error a member answers with", 1)
+		r.guard("R16.17", func() { r6UnionTriesEveryMember(w, r, "R16.17") })
+	case "C17":
+		r.Rule("R17.10", "a value token of a union-typed leaf or key is accepted iff some member type accepts it: union.Validate leaves its scan early only at a member that accepts (same analysis as R16.17)", 1)
+		r.guard("R17.10", func() { r6UnionTriesEveryMember(w, r, "R17.10") })
+		r.Rule("R17.11", "a rejection names the offending element in the encoding its readers decode: every store into the Path of a management error in package schema takes the text from pathutil.Pathstr (or copies another error's Path)", 10)
+		r.guard("R17.11", func() { r6PathWrittenByPathstr(w, r, "R17.11") })
 	case "C13":
 		r.Rule("R13.13", "a derived type only narrows: getTypes refuses `type` substatements on a type derived from a union typedef (an error exit is taken when a base union is given and member types are listed) — otherwise the listed members replace the inherited ones", 1)
 		r.guard("R13.13", func() { r6DerivedUnionMembers(w, r, "R13.13") })
@@ -917,4 +931,260 @@ func r6TypedefStatusAlways(w *World, r *Report, rule string) {
 		}
 	}
 	r.Check(why == "", rule, "BuildBaseType applies the status rule to every typedef it resolves", call.Pos(), "assertReferenceStatus(type, typedef) on every path that goes on with the typedef", why+": `type own-prefix:old-t` (the module's own prefix) refers to a deprecated or obsolete typedef of the same module without complaint")
+}
+
+// r6ListStoredAsGiven: the constructor ctor stores the list parameter whose
+// element type contains elem into typ.field unchanged (nil replaced by an
+// empty list).
+func r6ListStoredAsGiven(w *World, r *Report, rule, ctor, elem, typ, field, what, consequence string) {
+	f := w.SSAFunc(w.Func("schema", ctor))
+	if f == nil {
+		panic(undecided{"schema." + ctor})
+	}
+	var given *ssa.Parameter
+	for _, prm := range f.Params {
+		if sl, ok := prm.Type().Underlying().(*types.Slice); ok && strings.Contains(sl.Elem().String(), elem) {
+			given = prm
+		}
+	}
+	fld := w.Field("schema", typ, field)
+	n := 0
+	why := ""
+	var asGiven func(v ssa.Value, d int) bool
+	asGiven = func(v ssa.Value, d int) bool {
+		switch x := v.(type) {
+		case *ssa.Parameter:
+			return x == given
+		case *ssa.MakeSlice:
+			k, ok := intConstOf(x.Len)
+			return ok && k == 0
+		case *ssa.Slice:
+			if a, ok := x.X.(*ssa.Alloc); ok {
+				if arr, ok := a.Type().Underlying().(*types.Pointer).Elem().Underlying().(*types.Array); ok && arr.Len() == 0 {
+					return true
+				}
+			}
+			return false
+		case *ssa.Phi:
+			if d > 3 {
+				return false
+			}
+			for _, e := range x.Edges {
+				if !asGiven(e, d+1) {
+					return false
+				}
+			}
+			return true
+		}
+		return false
+	}
+	for _, b := range f.Blocks {
+		for _, in := range b.Instrs {
+			st, ok := in.(*ssa.Store)
+			if !ok {
+				continue
+			}
+			fa, ok := st.Addr.(*ssa.FieldAddr)
+			if !ok || !isFieldAddrOf(fa, fld) {
+				continue
+			}
+			n++
+			if given == nil || !asGiven(st.Val, 0) {
+				why = "the list stored is `" + st.Val.String() + "`, computed from the one given"
+			}
+		}
+	}
+	if n == 0 {
+		panic(undecided{ctor + ": store of the list"})
+	}
+	r.Check(why == "", rule, ctor+" keeps the list it is given", f.Pos(), what, why+": "+consequence)
+}
+
+// r6FdTable (R16.16): the decimal64 bounds per fraction-digits are ±(2^63)/10^fd.
+func r6FdTable(w *World, r *Report, rule string) {
+	v := w.Var("schema", "fdtab")
+	init, ip := w.VarInit(v)
+	lv := evalLit(ip, init)
+	seen := map[int64]bool{}
+	one := constant.MakeInt64(1)
+	two63 := constant.Shift(one, token.SHL, 63)
+	for _, row := range lv.KVs {
+		fd, _ := constant.Int64Val(row.Key)
+		seen[fd] = true
+		c := fmt.Sprintf("fdtab[%d]", fd)
+		vals := row.Val.Elems
+		if len(vals) != 2 || vals[0].Const == nil || vals[1].Const == nil {
+			r.Fail(rule, c, row.Pos.Pos(), "row is not {min, max}")
+			continue
+		}
+		pow := constant.MakeInt64(1)
+		for i := int64(0); i < fd; i++ {
+			pow = constant.BinaryOp(pow, token.MUL, constant.MakeInt64(10))
+		}
+		lo := constant.BinaryOp(constant.UnaryOp(token.SUB, two63, 0), token.QUO, constant.ToFloat(pow))
+		hi := constant.BinaryOp(constant.BinaryOp(two63, token.SUB, one), token.QUO, constant.ToFloat(pow))
+		wl, _ := constant.Float64Val(constant.ToFloat(lo))
+		wh, _ := constant.Float64Val(constant.ToFloat(hi))
+		gl, _ := constant.Float64Val(constant.ToFloat(vals[0].Const))
+		gh, _ := constant.Float64Val(constant.ToFloat(vals[1].Const))
+		r.Check(gl == wl && gh == wh, rule, c, row.Pos.Pos(), fmt.Sprintf("%v..%v", gl, gh), fmt.Sprintf("bounds %v..%v; a decimal64 with %d fraction digits ranges over %v..%v (±2^63 / 10^%d): values at the end of the value space are refused or values outside it accepted", gl, gh, fd, wl, wh, fd))
+	}
+	for fd := int64(1); fd <= 18; fd++ {
+		if !seen[fd] {
+			r.Fail(rule, fmt.Sprintf("fdtab[%d]", fd), init.Pos(), "fraction-digits value missing from the table")
+		}
+	}
+}
+
+// r6UnionTriesEveryMember (R16.17 / R17.10): union.Validate asks every member
+// type and leaves the scan early only at one that accepts.
+func r6UnionTriesEveryMember(w *World, r *Report, rule string) {
+	f := w.SSAFunc(w.Method("schema", "union", "Validate"))
+	if f == nil {
+		panic(undecided{"schema.union.Validate"})
+	}
+	sym := NewSym(w)
+	sym.Expand = false
+	isMemberValidate := func(v ssa.Value) bool {
+		c, ok := v.(*ssa.Call)
+		return ok && c.Call.IsInvoke() && nm(c.Call.Method) == "Validate"
+	}
+	why := "no scan over the member types found"
+	for _, g := range bodiesDeep(f, 2) {
+		if g.Pkg != f.Pkg {
+			continue
+		}
+		for _, b := range g.Blocks {
+			for _, in := range b.Instrs {
+				if call, ok := in.(*ssa.Call); ok {
+					if list, test := containsFuncCall(call); test != nil && loadedFieldName(list) == "typs" {
+						why = ""
+					}
+				}
+			}
+		}
+		for _, l := range ssaLoops(g) {
+			body := l.body()
+			asks := false
+			for b := range body {
+				for _, in := range b.Instrs {
+					if v, ok := in.(ssa.Value); ok && isMemberValidate(v) {
+						asks = true
+					}
+				}
+			}
+			if !asks {
+				continue
+			}
+			has := false
+			msg := pcImplies(loopMidExits(sym, l), func(a *pcAtom) string {
+				if a.op == token.EQL && a.x != nil && a.y != nil && ((isNilConst(a.x) && isMemberValidate(a.y)) || (isNilConst(a.y) && isMemberValidate(a.x))) {
+					has = true
+					return "accepts"
+				}
+				return ""
+			}, func(env map[string]bool) bool { return env["accepts"] })
+			mid := loopMidExits(sym, l)
+			switch {
+			case mid == pcZ || !pcSat(mid):
+				why = "" // never left early: every member is asked
+			case !has || msg != "":
+				why = "the scan over the member types is left although the member asked did not accept (" + msg + ")"
+			default:
+				why = ""
+			}
+		}
+	}
+	r.Check(why == "", rule, "union.Validate asks every member type", f.Pos(), "left early only at a member that accepts", why+": a union whose first member answers with another kind of error (`empty` does) rejects values a later member accepts")
+}
+
+// r6PathWrittenByPathstr (R17.11): wherever package schema fills the Path of a
+// management error, the text comes from pathutil.Pathstr.
+func r6PathWrittenByPathstr(w *World, r *Report, rule string) {
+	n := 0
+	for _, f := range allFuncs(w.SSAPkg("schema")) {
+		if isTestFile(w, f.Pos()) {
+			continue
+		}
+		// the functions that are handed a path as a list of tokens (path validation and its error constructors)
+		tokens := false
+		for g := f; g != nil; g = g.Parent() {
+			for _, prm := range g.Params {
+				if prm.Type().String() == "[]string" {
+					tokens = true
+				}
+			}
+		}
+		if !tokens {
+			continue
+		}
+		for _, b := range f.Blocks {
+			for _, in := range b.Instrs {
+				st, ok := in.(*ssa.Store)
+				if !ok {
+					continue
+				}
+				fa, ok := st.Addr.(*ssa.FieldAddr)
+				if !ok {
+					continue
+				}
+				fv := fieldAddrVar(fa)
+				if fv == nil || fv.Name() != "Path" || fv.Pkg() == nil || !strings.Contains(fv.Pkg().Path(), "mgmterror") {
+					continue
+				}
+				n++
+				good := false
+				var from func(v ssa.Value, d int) bool
+				from = func(v ssa.Value, d int) bool {
+					if d > 4 {
+						return false
+					}
+					switch x := v.(type) {
+					case *ssa.Call:
+						if g := x.Call.StaticCallee(); g != nil {
+							if strings.HasSuffix(g.String(), "pathutil.Pathstr") {
+								return true
+							}
+							// a helper of the package that only hands the text on
+							if g.Pkg == f.Pkg && g.Blocks != nil {
+								all := true
+								cnt := 0
+								for _, gb := range g.Blocks {
+									if ret, ok := gb.Instrs[len(gb.Instrs)-1].(*ssa.Return); ok && len(ret.Results) == 1 {
+										cnt++
+										if !from(ret.Results[0], d+1) {
+											all = false
+										}
+									}
+								}
+								return all && cnt > 0
+							}
+						}
+					case *ssa.Phi:
+						for _, e := range x.Edges {
+							if !from(e, d+1) {
+								return false
+							}
+						}
+						return len(x.Edges) > 0
+					case *ssa.UnOp:
+						// copied from another error's Path
+						if sfa, ok := x.X.(*ssa.FieldAddr); ok {
+							if sv := fieldAddrVar(sfa); sv != nil && sv.Name() == "Path" {
+								return true
+							}
+						}
+					case *ssa.Const:
+						return true
+					}
+					return false
+				}
+				good = from(st.Val, 0)
+				r.Check(good, rule, funcKey(f)+" sets Path", st.Pos(), "pathutil.Pathstr(…)", "the Path of the error is written by something other than pathutil.Pathstr (`"+st.Val.String()+"`): a token containing '/', '%', '+' or a blank is not escaped, and the reader (pathutil.Makepath) names another element")
+			}
+		}
+	}
+	if n == 0 {
+		panic(undecided{"no store to the Path of a management error in package schema"})
+	}
 }
